@@ -121,6 +121,13 @@ func (e *Engine) intrinsic(st *State, fn *ssa.Function, full string, args []Valu
 		case "vfSpawn":
 			e.spawn(st, args[0].(FuncV), site)
 			return nil, true
+		case "vfSpawnCut":
+			cut, ok := constInt(args[1])
+			if !ok {
+				panic(e.unsupported("vfSpawnCut with non-constant cut"))
+			}
+			e.spawnCut(st, args[0].(FuncV), cut, site)
+			return nil, true
 		case "vfSpawnAtomic":
 			e.spawnAtomic(st, args[0].(FuncV), site)
 			return nil, true
